@@ -378,7 +378,10 @@ class Lexer:
         func_object = None
         if jmc_decorator.is_save_to_datapack:
             func_object = pre_function.parse()
-            if pre_function.func_path in self.datapack.functions:
+            if (
+                pre_function.func_path in self.datapack.functions
+                or pre_function.func_path in self.datapack.lazy_func
+            ):
                 raise JMCSyntaxException(
                     f"Duplicate function declaration({pre_function.func_path})",
                     pre_function.self_token,
@@ -479,7 +482,10 @@ class Lexer:
         func_content = command[3].string[1:-1]
         if func_path == self.datapack.load_name:
             raise JMCSyntaxException("Load function is defined", command[1], tokenizer)
-        if func_path in self.datapack.functions:
+        if (
+            func_path in self.datapack.functions
+            or func_path in self.datapack.lazy_func
+        ):
             old_function_token, old_function_tokenizer = self.datapack.defined_file_pos[
                 func_path
             ]
@@ -542,7 +548,10 @@ class Lexer:
         )
         return_value = pre_function.parse()
         if is_save_to_datapack:
-            if pre_function.func_path in self.datapack.functions:
+            if (
+                pre_function.func_path in self.datapack.functions
+                or pre_function.func_path in self.datapack.lazy_func
+            ):
                 raise JMCSyntaxException(
                     f"Duplicate function declaration({pre_function.func_path})",
                     pre_function.self_token,
